@@ -266,6 +266,10 @@ also("C13", "(R-DROP-ONE) an edit list re-sliced onto itself loses exactly one e
 also("C14", "(R-HANDOVER-RESET) an accumulator field of a reader (one that grows by append) handed over to a result inside a loop is emptied before the loop can hand it over again; (R-SPAN-SIBLING) a short-form test in which the range cancels out (start − start) is still compared with the sibling's.")
 also("C09", "The `defer c.lock()()` idiom is read by the helper's body: a method that locks the receiver's mutex, does nothing else and returns its bound Unlock; its call is the Lock, the deferred call of its result the deferred Unlock.")
 also("C14", "The unified format's writer and reader tables (opcode -> prefix/field, marker byte -> opcode/offset) are read off the control-flow graph as well as off switch statements (if-chains, disjunctions, early continues).")
+also("C08", "(R-BUILDER-CARRIES) a Config builder that returns a fresh literal sets every field of it (no earlier setting of the chain is lost).")
+also("C09", "R-CALLBACK-ONCE also imports C08's R-CLEAR-ALL: Clear's loop ends on the entry count, so no entry stays behind unreported.")
+also("C10", "(R-NIL-RING) the operations of ring.Ring documented to accept an empty (nil) ring reach a dereference of the receiver only under r != nil.")
+also("C13", "(R-GAP-REPOSITION) in New every path through the block that handles a gap after the current chunk sets that chunk's start from the running position.")
 also("C13", "(R-BOUND-SIDE) where two sibling fields are indexed in one block and one index is tested against 0, the other is too.")
 also("C18", "A count handed to an unexported helper that answers at once for count 0 is zero only for an empty collection (len(x) or min(len(x), k), never len(x) - k).")
 also("C20", "(R-TRUNC-PREFIX) Trunc backs up only when it cuts; (R-CMP-RANGE) comparison helpers chosen among named functions are followed. (R-CMP-CHAIN) in CompareNatural's scope a comparison result returned under a test of itself is returned for both signs.")
